@@ -3,7 +3,7 @@ against the REAL runtime classes (type-stripped codegen-v2.ts) + property oracle
 import vcheck
 
 PID = "C03"
-MODULES = ["BeffVerif.Props.C03", "BeffVerif.Props.C03NoThrow", "BeffVerif.Props.C03Report", "BeffVerif.Props.C03Parse", "BeffVerif.Props.C03Declared", "BeffVerif.Props.C03Idem", "BeffVerif.Props.C03Order"]
+MODULES = ["BeffVerif.Props.C03", "BeffVerif.Props.C03NoThrow", "BeffVerif.Props.C03Report", "BeffVerif.Props.C03Parse", "BeffVerif.Props.C03Declared", "BeffVerif.Props.C03Idem", "BeffVerif.Props.C03Order", "BeffVerif.Props.Consts"]
 AUDIT = "BeffVerif/Audit/C03.lean"
 TAGS = ("c03.",)
 HYP = {"NoProtoNamedKeys": "D28", "IntersectionsOfObjects": "D29", "NoSplitIntersection": "D32", "NoAccessorNamedProps": "D33", "NoLaxObjectBesideBuiltin": "D33b"}
@@ -40,7 +40,7 @@ def run(chk):
         [PID + ": Model/{JsVal,RT,Validate,Parse,Report}.lean model codegen-v2.ts:34-2430 and err.ts by hand; property names outside the modelled vocabulary "
          "on non-plain objects, lone surrogates, cyclic inputs and getters are outside the model; a hole of a sparse array is modelled as the `undefined` every read of it gives (the harness keeps real holes on the JavaScript side)",
          PID + ": Node stripTypeScriptTypes (types removed only); custom formats registered by the harness naming convention"],
-        OPEN, RULE)
+        OPEN, RULE, translators=("client_consts.py",))
 
 def replay(chk, path):
     chk.build_js(); chk.build_lean(MODULES)
